@@ -270,7 +270,17 @@ class UniformScale(DiscreteAffine, Similarity):
         ----------
         p : `float`
             The parameter
+
+        Raises
+        ------
+        ValueError
+            If more (or less) than one parameter is given.
         """
+        if np.size(p) != 1:
+            raise ValueError(
+                "UniformScale has exactly 1 parameter; got {} "
+                "instead.".format(np.size(p))
+            )
         np.fill_diagonal(self.h_matrix, p)
         self.h_matrix[-1, -1] = 1
 
